@@ -160,3 +160,43 @@ impl<'a> Read for FailingReader<'a> {
         Ok(n)
     }
 }
+
+
+/// A logger like the one an application embedding the library installs: it admits
+/// every level and formats every record (so the arguments of the library's log
+/// statements are evaluated on the data under test).  `ITV_NO_LOGGER=1` leaves the
+/// process without a logger.
+struct FormattingLogger;
+
+pub static LOG_RECORDS: std::sync::atomic::AtomicU64 =
+    std::sync::atomic::AtomicU64::new(0);
+pub static LOG_BYTES: std::sync::atomic::AtomicU64 =
+    std::sync::atomic::AtomicU64::new(0);
+
+impl log::Log for FormattingLogger {
+    fn enabled(&self, _: &log::Metadata) -> bool {
+        true
+    }
+    fn log(&self, record: &log::Record) {
+        use std::sync::atomic::Ordering;
+        let line = format!(
+            "{} {} {}",
+            record.level(),
+            record.target(),
+            record.args()
+        );
+        LOG_RECORDS.fetch_add(1, Ordering::Relaxed);
+        LOG_BYTES.fetch_add(line.len() as u64, Ordering::Relaxed);
+    }
+    fn flush(&self) {}
+}
+
+pub fn install_logger() {
+    if std::env::var_os("ITV_NO_LOGGER").is_some() {
+        return;
+    }
+    static LOGGER: FormattingLogger = FormattingLogger;
+    if log::set_logger(&LOGGER).is_ok() {
+        log::set_max_level(log::LevelFilter::Trace);
+    }
+}
